@@ -689,6 +689,92 @@ def _r156(ctx: Ctx) -> None:
            f'{outs!r}', key='merge_results|form')
 
 
+class _PathObj:
+    def __init__(self, p, files):
+        self.p, self.files = p, files
+
+    def pqv_getattr(self, name):
+        if name == 'rglob':
+            return _CallP(lambda pat: [f'{self.p}/{f}' for f in self.files.get(self.p, []) if _glob_match(f, pat)])
+        return TOP
+
+
+class _CallP:
+    def __init__(self, f):
+        self.f = f
+
+    def pqv_call(self, *a, **k):
+        return self.f(*a, **k)
+
+
+def _glob_match(name, pat):
+    import fnmatch
+    return fnmatch.fnmatch(name, pat)
+
+
+class _ZipObj:
+    def __init__(self, members):
+        self.members = members
+
+    def pqv_getattr(self, name):
+        if name == 'filelist':
+            return [_ZipMember(x) for x in self.members]
+        return TOP
+
+
+class _ZipMember:
+    def __init__(self, fn):
+        self.fn = fn
+
+    def pqv_getattr(self, name):
+        return self.fn if name == 'filename' else TOP
+
+
+def _r157(ctx: Ctx) -> None:
+    """find_files lists every results file exactly once, whatever mixture of paths is supplied."""
+    m = ctx.model
+    ami, aci = _analysis(ctx)
+    fn = aci.methods.get('find_files')
+    ctx.need(fn is not None, 'R15.6', site_of(ami, aci.node), 'Analysis.find_files not found')
+    dirs = {'dirA': ['a1.json', 'a2.json.gz', 'sub/a3.json', 'arch.zip'], 'dirB': ['b1.json.gz']}
+    zips = {'dirA/arch.zip': ['z1.json', 'z2.json.gz', 'readme.txt'], 'solo.zip': ['s1.json']}
+    paths = ['dirA', 'solo.zip', 'dirB', 'single.json.gz', 'merged.json']
+
+    class H(Hooks):
+        def call(self, it, func, args, kwargs, node, env):
+            if isinstance(func, Ext):
+                if func.name == 'os.path.isdir':
+                    return args[0] in dirs
+                if func.name in ('pathlib.Path',):
+                    return _PathObj(args[0], dirs)
+                if func.name in ('zipfile.ZipFile',):
+                    return _ZipObj(zips.get(str(args[0]), []))
+            from ..interp import BoundMethod
+            if isinstance(func, BoundMethod) and func.closure.fn.name == 'log':
+                return None
+            return NOT_HANDLED
+    it = Interp(m, H())
+
+    def thunk():
+        o = Obj(aci, 'analysis')
+        o.fields['results_paths'] = list(paths)
+        o.fields['verbose'] = False
+        it.call_closure(Closure(fn, ami, aci), [], {}, fn, self_obj=o)
+        return o.fields.get('file_locations')
+    outs = guard('R15.6', ami, fn)(lambda: it.explore(thunk))
+    ctx.need(len(outs) == 1 and outs[0].kind == 'return' and isinstance(outs[0].value, list), 'R15.6', site_of(ami, fn),
+             f'find_files: {outs!r}')
+    got = [x if isinstance(x, str) else (tuple(x) if isinstance(x, (tuple, list)) else repr(x)) for x in outs[0].value]
+    want = ['dirA/a1.json', 'dirA/a2.json.gz', 'dirA/sub/a3.json', ('dirA/arch.zip', 'z1.json'), ('dirA/arch.zip', 'z2.json.gz'),
+            ('solo.zip', 's1.json'), 'dirB/b1.json.gz', 'single.json.gz', 'merged.json']
+    dup = sorted({repr(x) for x in got if got.count(x) > 1})
+    ok = not dup and sorted(map(repr, got)) == sorted(map(repr, want))
+    ctx.ob('R15.6', site_of(ami, fn), 'find_files lists every results file of a mixed list of paths exactly once', ok,
+           f'duplicates: {dup}; missing: {sorted(set(map(repr, want)) - set(map(repr, got)))}; unexpected: '
+           f'{sorted(set(map(repr, got)) - set(map(repr, want)))} - pooled counts would change with the way files are passed',
+           key='find_files|once', facts=[repr(x) for x in got])
+
+
 def run(ctx: Ctx) -> None:
     ctx.rule('R15.1', 'per-trial columns written = columns concatenated; additive columns summed', floor=4)
     ctx.rule('R15.2', 'group-by key = full identity (code, noise, decoder, method strings, error rate), sorted', floor=6)
@@ -702,3 +788,6 @@ def run(ctx: Ctx) -> None:
     _r154(ctx)
     _r155(ctx)
     _r156(ctx)
+    _r157(ctx)
+    from .c06 import class_mutable_rule
+    class_mutable_rule(ctx, 'R15.6', ['Analysis'])
